@@ -53,7 +53,9 @@ func consumeSingleTURNFrame(b []byte) (int, error) {
 		}
 
 		datagramSize += channelDataHeaderSize
-	case stun.IsMessage(b):
+	// stun.IsMessage looks at the magic cookie only; the two most significant bits of
+	// a STUN message are zero, and bytes that start with 10 or 11 begin no frame at all.
+	case b[0]&0xC0 == 0 && stun.IsMessage(b):
 		datagramSize = int(binary.BigEndian.Uint16(b[2:4])) + stunHeaderSize
 	case len(b) < stunHeaderSize:
 		return 0, errIncompleteTURNFrame
